@@ -770,6 +770,38 @@ func (q *seq) monitor(op, res string, pre, post snap) {
 			}
 		}
 	}
+	// C06 (and C05 "exactly one state"): nothing leaves a batch, and no batch / outgoing bridge call leaves the store, except
+	// at the observation of an external event (or, for a bridge call, when an observed result is applied)
+	if w[0] != "obs" {
+		for id, b := range preBatchOf {
+			found := false
+			for _, pb := range post.batches {
+				if pb.nonce == b.nonce && pb.token == b.token {
+					for _, t := range pb.txs {
+						if t.id == id {
+							found = true
+						}
+					}
+				}
+			}
+			if !found {
+				out.Violate("C05/C06 released without an observed event: a transfer left its batch (or the batch left the store) at " + w[0] + ", not at the observation of an external event")
+				break
+			}
+		}
+		if w[0] != "exec" {
+			postC := map[int]bool{}
+			for _, c := range post.calls {
+				postC[c.nonce] = true
+			}
+			for _, c := range pre.calls {
+				if !postC[c.nonce] {
+					out.Violate("C05/C06 released without an observed event: an outgoing bridge call left the store at " + w[0] + ", not at the observation of an external event")
+					break
+				}
+			}
+		}
+	}
 	delta := make([]int64, len(post.bal))
 	for i := range post.bal {
 		delta[i] = post.bal[i] - pre.bal[i]
